@@ -860,6 +860,20 @@ class _FuncAnalysis:
             return out
         if name in ('strlen', '__builtin_strlen'):
             return None
+        if name in ('strspn', 'strcspn') and args:
+            # the span ends at the terminator at the latest: arg + result <= end of the string arg points into
+            out = [res]
+            a = self.lin(args[0], st)
+            reg = self.region_of(args[0], st)
+            if a is not None and reg is not None:
+                if reg.end is not None:
+                    out.append(reg.end - a - res)
+                elif reg.cap is not None:
+                    out.append(reg.base + reg.cap - a - res - Lin.const(1))
+            s0 = strip(args[0])
+            if s0 is not None and s0.k == 'DeclRefExpr':
+                out.append(Lin.sym(('strlen', self.strkey(s0), render(s0))) - res)
+            return out
         t = self.prog.func(name, self.func.tu) if name else None
         if t is not None and self.top.nonneg_result(t):
             return [res]
